@@ -29,6 +29,7 @@ What is proved, for all transactions / witnesses / predicate VMs / completion or
    (`estimate_then_verify_literal_false_*`), replayed on the real VM by the harness (known findings).
 -/
 import FuelVerif.Lemmas.Auth
+import FuelVerif.Gen.Predicates
 namespace FuelVerif.C20
 open FuelVerif.Auth
 
@@ -251,6 +252,25 @@ theorem estimate_then_verify_literal_false_owner :
       = ([.predicate [9] [1] 1], .ok 1) ∧
     checkPredicates (fun c => c) (fun _ => 0) ⟨1000, 500⟩ vmTrue [.predicate [9] [1] 1] = .error (.InvalidOwner 0) := by
   decide
+
+/-! ### obligations on what the translator extracts from the Rust text -/
+
+def errName : ErrKind → String
+  | .outOfGas => "reason:OutOfGas" | .panic _ => "Panic" | .panicInstruction _ => "PanicInstruction"
+  | .bug => "Bug" | .storage => "Storage" | .other => "_"
+def failName : PFail → String
+  | .GasMismatch _ => "GasMismatch" | .OutOfGas _ => "OutOfGas" | .InvalidOwner _ => "InvalidOwner" | .False _ => "False"
+  | .TransactionExceedsTotalGasAllowance _ => "TransactionExceedsTotalGasAllowance" | .Bug => "Bug"
+  | .Panic _ _ => "Panic" | .PanicInstruction _ _ => "PanicInstruction" | .Storage _ => "Storage"
+
+/-- the model's `interpreterError` maps every class of interpreter error to the constructor the arms of
+`PredicateVerificationFailed::interpreter_error` (regenerated from fuel-vm/src/error.rs) name -/
+theorem interpreter_error_arms (i : Nat) (k : ErrKind) :
+    Gen.Predicates.interpreterErrorArms.lookup (errName k) = some (failName (interpreterError i k)) := by
+  cases k <;> simp only [errName, interpreterError, failName] <;> decide
+
+/-- a predicate succeeds on `Return(1)` in both places the code says so (the model's `returnOne`) -/
+theorem success_value : Gen.Predicates.successReturn = 1 ∧ Gen.Predicates.verifyReturnOne = 1 := by decide
 
 /-! ### non-vacuity -/
 
